@@ -154,6 +154,49 @@ PROPS = {
         outside="more fragments / longer runs, traf without trun or tfdt, attaching fragments in read_header / read_fragment_header",
         assumptions=COMMON_ASSUME + ["runs carry per-sample sizes and a tfdt (the property's precondition)"],
     ),
+    "C10": dict(
+        design_ref="DESIGN.md 5.10",
+        level_text="Harness streams wrap a cursor: the k-th call (read_exact/read/seek/stream_position, or write/seek) fails with an I/O error or a "
+                   "zero-length write, k symbolic over all u32; a chunked stream transfers at most c bytes per call (c symbolic 1..4) with one "
+                   "interrupted call at a symbolic index and does not override read_exact/write_all. Asserted per unit (decoders on reference bytes "
+                   "of symbolic values, read_sample, encoders, write_sample+flush, Mp4Writer write_start/write_end): fault fired <=> result is "
+                   "Err(IoError); never Ok, never another error, never a panic; short transfers give identical values / bytes.",
+        level_note="Per unit, not per whole-file parse (out of reach). " + GLUE,
+        bounds="one fault per run at any call index; units listed in coverage.per_harness; transfers down to one byte per call",
+        outside="several faults in one run, whole-file parsing, containers beyond the listed ones",
+        assumptions=COMMON_ASSUME,
+    ),
+    "C11": dict(
+        design_ref="DESIGN.md 5.11",
+        level_text="The reference encoding of a symbolic value (concrete shape) is cut at a symbolic position c < length and decoded with the real "
+                   "BoxHeader::read + read_box from a cursor over the prefix: the result is an error or a value equal to the original; read_sample on a "
+                   "consistent two-sample track over a stream cut at a symbolic position is an error or identical in bytes and timing.",
+        level_note="Unit level (box decode, container required children, sample payload). Prefixes of whole files through read_header are reader glue. " + GLUE,
+        bounds="every cut position of the listed box encodings (<= 128 bytes) and of a 16-byte sample stream",
+        outside="whole-file prefixes, moov-last layouts through read_header",
+        assumptions=COMMON_ASSUME,
+    ),
+    "C12": dict(
+        design_ref="DESIGN.md 5.12",
+        level_text="Metamorphic pairs per unit with symbolic transformation parameters: 0..4 spare bytes after the last field (size enlarged), the "
+                   "64-bit size-header form in front of the same payload, an unknown box of symbolic type inserted between the children of a container, "
+                   "siblings in another order, chunk offsets shifted by a symbolic layout change: equal parse result, cursor at the end of the box, "
+                   "sample offsets shifted by exactly the change.",
+        level_note="Unit level; top-level insertions and mdat before/after moov are reader glue. " + GLUE,
+        bounds="the listed leaf/table boxes and the mvex / traf containers; unknown box payload 0..4 bytes; 2 chunks / 3 samples for the shift",
+        outside="top level, deep containers (trak/mdia/minf/stbl), ilst",
+        assumptions=COMMON_ASSUME + ["the inserted box type is not one the crate knows (first byte 'z')"],
+    ),
+    "C15": dict(
+        design_ref="DESIGN.md 5.15",
+        level_text="Two-run relational harnesses on the same symbolic inputs: read_sample(k) from a fresh cursor vs from a cursor that was seeked to "
+                   "an arbitrary position and then served another (possibly failing) read; the track-writer pipeline and the zero-track Mp4Writer "
+                   "pipeline run twice (tables, durations, bytes identical); decoders run twice on the same arbitrary bytes.",
+        level_note="All lookups take &self and the types have no interior mutability (syntactic scan recorded in the evidence), so the stream position is the only history channel. Hash-order nondeterminism would only be seen if Kani models it as nondeterministic. " + GLUE,
+        bounds="2-sample track, 16-byte stream, one earlier call; K=1 mux history; 40..112-byte buffers for parsing",
+        outside="interleaving across tracks (track map), longer call histories (covered by the no-hidden-state argument, not by the solver)",
+        assumptions=COMMON_ASSUME,
+    ),
     "C13": dict(
         design_ref="DESIGN.md 5.13",
         level_text="The 4 GiB boundaries are reached symbolically: the output is a position-only sparse stream whose start offset and payload gap are "
@@ -185,6 +228,17 @@ PROPS = {
         bounds="K<=2 (3 thorough) calls, payload <= 2 bytes, parameter sets <= 5 bytes",
         outside="Mp4Writer::write_sample with tracks present, very large payloads as real Bytes values",
         assumptions=COMMON_ASSUME,
+    ),
+    "C18": dict(
+        design_ref="DESIGN.md 5.18",
+        level_text="The real MetaBox / IlstBox / IlstItemBox / DataBox decoders run on reference-encoded input with symbolic payloads (meta with and "
+                   "without the version/flags word, symbolic non-mdir handler, mdir without ilst, empty ilst, unknown items of symbolic type) and the "
+                   "real Metadata impls run on what they return: absence cases in the quick tier; one known item (year binary 4/5 bytes, poster, "
+                   "title) preceded by an unknown item in the thorough tier (one HashMap insert costs minutes of solver time).",
+        level_note="Mp4Reader::metadata() only selects moov.udta.meta(mdir).ilst; that selection is re-stated in the harness (reader glue is outside). Lists with more than one known item, long payloads and lossy UTF-8 decoding are outside. " + GLUE,
+        bounds="payloads <= 5 bytes, at most one known item plus one unknown item",
+        outside="several known items in one list, payloads > 5 bytes, invalid UTF-8, Mp4Reader::metadata() on a real reader",
+        assumptions=COMMON_ASSUME + ["text payloads are ASCII"],
     ),
     "C16": dict(
         design_ref="DESIGN.md 5.16",
